@@ -328,14 +328,14 @@ def rtsp_line(items):
     return "c06.rtsp %s" % (";".join(x.text() if isinstance(x, Msg) else x for x in items) if items else "-")
 
 
-def e2e_line(frag_ms, hls, rtsp, msgs, joins):
+def e2e_line(frag_ms, hls, rtsp, msgs, joins, wk=0, tsgop=0):
     """joins: {index: ["Jt:1", "Jr:5", ...]} inserted in front of message `index` (len(msgs) = after the last one)"""
     items = []
     for i, m in enumerate(msgs):
         items += joins.get(i, [])
         items.append(m.text() if isinstance(m, Msg) else m)
     items += joins.get(len(msgs), [])
-    return "c06.e2e %d:%d:%d %s" % (frag_ms, hls, rtsp, ";".join(items) if items else "-")
+    return "c06.e2e %d:%d:%d:%d:%d %s" % (frag_ms, hls, rtsp, wk, tsgop, ";".join(items) if items else "-")
 
 
 def rand_script(rng, n, p):
@@ -538,7 +538,26 @@ def gen_cases(tier, rng):
             joins.setdefault(rng.choice([0, 0, rng.randrange(len(ms) + 1)]), []).append("Jt:%d" % next(ids))
         for _ in range(rng.randrange(0, 3)):
             joins.setdefault(rng.choice([0, rng.randrange(len(ms) + 1)]), []).append("Jr:%d" % next(ids))
-        yield Case(e2e_line(rng.choice([100, 400, 1000, 3000]), rng.choice([1, 1, 1, 0]), 1, ms, joins), cls="e2e")
+        yield Case(e2e_line(rng.choice([100, 400, 1000, 3000]), rng.choice([1, 1, 1, 0]), 1, ms, joins,
+                            wk=rng.choice([0, 1, 1]), tsgop=rng.choice([0, 1, 1, 2])), cls="e2e")
+    # joins in the middle of longer streams: RTSP players with / without OutWaitKeyFrameFlag, HTTP-TS with / without GOP cache
+    n_join = 400 if thorough else 30
+    for i in range(n_join):
+        vcodec = rng.choice(["avc", "avc", "hevc"])
+        acodec = rng.choice(["aac", "aac", "opus", None])
+        opts = dict(sizes=rng.choice([[1, 2, 5, 40], [5, 160, 200, 1300], [3, 2500, 30]]), bframes=rng.random() < 0.3,
+                    inband=rng.choice([0, 0.5]), sei=rng.choice([0, 0.4]), aud=rng.choice([0, 0.5]), sfi=rng.choice([3, 4, 8]),
+                    fps_ms=rng.choice([33, 40, 200]), hevc_mode=rng.choice(["classic", "ex1"]), gop=rng.choice([2, 3, 5]),
+                    nals_max=rng.choice([1, 3]), audio_sizes=rng.choice([[3, 60, 200], [400, 700]]), audio_ms=rng.choice([None, 60]))
+        ms = gen_stream(rng, vcodec, acodec, rng.randrange(10, 24), rng.randrange(8, 30) if acodec else 0, opts)
+        joins = {}
+        ids = iter(range(1, 20))
+        for _ in range(rng.randrange(1, 4)):
+            joins.setdefault(rng.randrange(2, len(ms) + 1), []).append("Jt:%d" % next(ids))
+        for _ in range(rng.randrange(1, 4)):
+            joins.setdefault(rng.randrange(2, len(ms) + 1), []).append("Jr:%d" % next(ids))
+        yield Case(e2e_line(rng.choice([100, 400, 3000]), rng.choice([1, 0]), 1, ms, joins,
+                            wk=rng.choice([0, 1, 1]), tsgop=rng.choice([0, 1, 2])), cls="e2e-join")
     # late sequence headers (after the probe / analysis windows): known limitation classes
     for k in (17, 20):
         ms = gen_stream(rng, "avc", "aac", 6, k + 8, dict(vsh_at=k + 2, video_start=23 * (k + 2), sizes=[9], audio_sizes=[8], sfi=4))
@@ -1257,9 +1276,14 @@ def oracle_rtsp(line_items, out):
 
 
 # ================================================================================================== oracle: c06.e2e
-def check_rtp_track(codec_kind, pkts, exp, rate, what):
+GOP_START_TYPES = {"avc": (5, 7, 8), "hevc": tuple(range(16, 24)) + (32, 33, 34)}
+
+
+def check_rtp_track(codec_kind, pkts, exp, rate, what, gate=False):
     """pkts: [dict(m, seq, ts, payload)] of one track of one subscriber; exp: [(units-or-frame, ts_ms)] published; the
-    recovered frames must be a tail of exp"""
+    recovered frames must be a tail of exp.  gate (video with OutWaitKeyFrameFlag): the stream starts at the first
+    unit that starts a GOP (IDR / IRAP picture or parameter set) - the units of that frame in front of it are not
+    sent - and that is where it must start"""
     for i, p in enumerate(pkts):
         if p["seq"] != i & 0xFFFF:
             return "%s sequence number %d at position %d" % (what, p["seq"], i)
@@ -1288,6 +1312,13 @@ def check_rtp_track(codec_kind, pkts, exp, rate, what):
                 got = [p["payload"] for p in g]
         except ValueError as ex:
             return "%s depacketisation: %s" % (what, ex)
+        if gate and g is groups[0]:
+            if not got or nal_type(codec_kind, got[0]) not in GOP_START_TYPES[codec_kind]:
+                return "%s: a player that waits for a key frame starts with a unit that starts no GOP" % what
+            k = len(u) - len(got)
+            if k < 0 or u[k:] != got or any(nal_type(codec_kind, x) in GOP_START_TYPES[codec_kind] for x in u[:k]):
+                return "%s first frame at %d ms is not the published one from its first GOP-start unit on" % (what, ts)
+            got = u
         if got != u:
             return "%s frame at %d ms differs from the published one" % (what, ts)
         want = ts * rate // 1000
@@ -1301,6 +1332,8 @@ def oracle_e2e(cfg, line_items, out):
         return False, "group run failed: " + out[:80]
     msg_items = [x for x in line_items if x[:2] in ("M:", "I:")]
     pub = read_published(msg_items)
+    cf = cfg.split(":")
+    wk = len(cf) >= 5 and cf[3] == "1"
     parts = {}
     if out != "-":
         for p in out.split("|"):
@@ -1367,7 +1400,7 @@ def oracle_e2e(cfg, line_items, out):
                     u = [x for x in fr["nals"] if nal_type(fr["codec"], x) != AUD_TYPE[fr["codec"]]]
                     if u:
                         exp.append((u, fr["ts"]))
-                err = check_rtp_track(codec, vp, exp, 90000, "video")
+                err = check_rtp_track(codec, vp, exp, 90000, "video", gate=wk)
                 if err:
                     return False, "%s: %s" % (k, err)
             if ap:
